@@ -245,10 +245,24 @@ fn jobs_for(progs: &[(String, String)], ws: &[u32]) -> Vec<Job> {
     }
     for (t, p) in order {
         for &w in ws {
-            jobs.push(Job { tag: t.clone(), code: p.clone(), width: w, ok0: false });
+            jobs.push(Job { tag: t.clone(), code: p.clone(), width: w, ok0: false, guard: 0 });
         }
     }
     jobs
+}
+
+/// Guard placement: programs that roam or depend on input get both placements, the rest alternate.
+fn with_guards(jobs: Vec<Job>) -> Vec<Job> {
+    let mut out = Vec::with_capacity(jobs.len() * 2);
+    for (i, j) in jobs.into_iter().enumerate() {
+        if j.tag == "ROAM" || j.tag.starts_with("REPO") || corpus::needs_solver(&j.code) {
+            out.push(Job { guard: 1, ..j.clone() });
+            out.push(Job { guard: 2, ..j });
+        } else {
+            out.push(Job { guard: 1 + (i % 2) as u8, ..j });
+        }
+    }
+    out
 }
 
 fn plan(property: &str, tier: &str) -> Option<Plan> {
@@ -424,7 +438,7 @@ fn plan(property: &str, tier: &str) -> Option<Plan> {
             let levels: Vec<u32> = if thorough { vec![0, 1, 2, 3] } else { vec![0, 2, 3] };
             Some(Plan {
                 property: property.into(),
-                jobs: jobs_for(&progs, &ws),
+                jobs: with_guards(jobs_for(&progs, &ws)),
                 specs: Box::new(move |_j| levels.iter().map(|&l| Spec { mode: Mode::Unsafe(0), ..Spec::full(Backend::Bc, l) }).collect()),
                 cfg: base_cfg(property, tier),
                 time_box: Duration::from_secs(if thorough { 1800 } else { 150 }),
@@ -432,6 +446,30 @@ fn plan(property: &str, tier: &str) -> Option<Plan> {
                 functions: vec!["hpbf::exec::BcInterpreter::<SymCell<W>>::execute_unsafe", "hpbf::exec::bcint::ops::{movl, movr, scanl, scanr}::<_, false>", "hpbf::runtime::Memory::make_accessible"],
                 rule: "one case = (program, width); execute_unsafe on a context pre-grown to the canonical excursion of the path plus the program length (rounded to whole pages), both ends of the region fenced by PROT_NONE pages; non-trivial = forked or needed >= 1 solver query".into(),
                 assumptions: vec!["the baseline JIT's static mode is not covered by this check".into()],
+                corpus_desc: desc,
+            })
+        }
+
+        "C06" => {
+            let (mut progs, desc) = corpus_programs(tier, false);
+            for p in corpus::gen_roaming(seed(), if thorough { 300 } else { 100 }) {
+                progs.push(("ROAM".into(), p));
+            }
+            let cfgs: Vec<(Backend, u32)> = if thorough {
+                vec![(Backend::Inplace, 0), (Backend::Ir, 0), (Backend::Ir, 2), (Backend::Ir, 3), (Backend::Bc, 0), (Backend::Bc, 1), (Backend::Bc, 2), (Backend::Bc, 3)]
+            } else {
+                vec![(Backend::Inplace, 0), (Backend::Ir, 2), (Backend::Bc, 0), (Backend::Bc, 2), (Backend::Bc, 3)]
+            };
+            Some(Plan {
+                property: property.into(),
+                jobs: with_guards(jobs_for(&progs, &ws)),
+                specs: Box::new(move |_j| cfgs.iter().map(|&(b, l)| Spec::full(b, l)).collect()),
+                cfg: base_cfg(property, tier),
+                time_box: Duration::from_secs(if thorough { 2400 } else { 170 }),
+                level: "model_checking",
+                functions: vec!["hpbf::runtime::Memory::{read, write, write_out_of_bounds, make_accessible, mov, current_ptr, set_current_ptr, check_ptr}", "hpbf::exec::bcint::ops::{enter_ops, checkl, checkr, movl, movr, scanl, scanr}::<_, true> and every straight-line op", "hpbf::exec::bcint::BcInterpreter::{build_context, free_context}", "hpbf::exec::{InplaceInterpreter, IrInterpreter}::execute"],
+                rule: "one case = (program, width, guard placement); the real interpreters run symbolically while every alloc_zeroed block (tape, interpreter context with temporaries) sits flush against a PROT_NONE page on the stated side; a fault aborts the run and is replayed natively; events must equal the reference (cells keep their values across reallocations); non-trivial = forked or needed >= 1 solver query".into(),
+                assumptions: vec!["the guard page detects accesses up to one page beyond the block on the flush side and anywhere in freed blocks; on the other side only beyond the page slack".into(), "the baseline JIT is not covered by this check".into()],
                 corpus_desc: desc,
             })
         }
@@ -485,8 +523,11 @@ fn run_plan(p: &Plan) -> PartResult {
     PartResult { coverage: cov, outs, skipped, wall_s: t0.elapsed().as_secs_f64() }
 }
 
-pub fn run_check(property: &str, tier: &str, part: Option<&str>) -> i32 {
+pub fn run_check(property: &str, tier: &str, part: Option<&str>, worker: bool) -> i32 {
     let t0 = Instant::now();
+    if !worker && matches!(property, "C06" | "C10") {
+        return supervise(property, tier);
+    }
     let tier = if tier == "thorough" { "thorough" } else { "quick" };
     // machinery self-checks first: a broken oracle or normaliser makes everything inconclusive
     if let Err(e) = crate::term::selftest(seed()) {
@@ -609,7 +650,7 @@ pub fn run_one(property: &str, code: &str, width: u32, tier: &str) -> i32 {
         Some(p) => p,
         None => return 2,
     };
-    let job = Job { tag: "one".into(), code: code.to_string(), width, ok0: false };
+    let job = Job { tag: "one".into(), code: code.to_string(), width, ok0: false, guard: 0 };
     let specs = (plan.specs)(&job);
     let out = crate::checks::run_job(&job, &specs, &plan.cfg);
     println!("{:#?}", JobOut { candidates: vec![], ..out.clone() });
@@ -637,7 +678,7 @@ pub fn hunt(n: usize) {
             for &w in &[8u32, 64] {
                 for backend in [Backend::Ir, Backend::Bc, Backend::Jit] {
                     for level in [1u32, 2, 3] {
-                        let case = Case { property: "hunt".into(), backend, width: w, level, mode: Mode::Full, program: p.clone(), input: input.clone(), fail_read_at: None, fail_write_at: None, out_ok0: false, no_input: false, no_output: false, note: String::new(), profile: String::new() };
+                        let case = Case { property: "hunt".into(), backend, width: w, level, mode: Mode::Full, program: p.clone(), input: input.clone(), fail_read_at: None, fail_write_at: None, out_ok0: false, no_input: false, no_output: false, note: String::new(), profile: String::new(), guard: 0 };
                         let r = native::run_ref_native(&case, 300_000);
                         if r.status != RefStatus::Halted {
                             continue;
@@ -676,7 +717,7 @@ fn still_fails(plan: &Plan, code: &str, width: u32) -> bool {
     if !refbf::balanced(code) {
         return false;
     }
-    let job = Job { tag: "min".into(), code: code.to_string(), width, ok0: false };
+    let job = Job { tag: "min".into(), code: code.to_string(), width, ok0: false, guard: 0 };
     let specs = (plan.specs)(&job);
     let out = crate::checks::run_job(&job, &specs, &plan.cfg);
     for (i, c) in out.candidates.iter().enumerate().take(3) {
@@ -755,4 +796,50 @@ pub fn minimize(property: &str, code: &str, width: u32, tier: &str) {
         }
     }
     println!("MINIMAL {}", cur);
+}
+
+/// Run a guard-allocator check in a child process: a guard-page fault kills the child
+/// (exit 77 with the case it was running); the fault is then replayed natively under the
+/// same allocator before it is reported.
+fn supervise(property: &str, tier: &str) -> i32 {
+    use std::io::{BufRead, BufReader};
+    use std::process::{Command, Stdio};
+    let exe = std::env::current_exe().expect("current_exe");
+    let mut child = Command::new(exe).args(["check", property, "--tier", tier, "--worker"]).stdout(Stdio::piped()).spawn().expect("spawn worker");
+    let out = child.stdout.take().unwrap();
+    let mut fault: Option<String> = None;
+    for line in BufReader::new(out).lines().map_while(Result::ok) {
+        if let Some(rest) = line.strip_prefix("GUARD-FAULT ") {
+            fault = Some(rest.to_string());
+        } else {
+            println!("{}", line);
+        }
+    }
+    let st = child.wait().expect("wait");
+    let code = st.code();
+    if code == Some(77) || fault.is_some() {
+        let js = fault.unwrap_or_default();
+        let v: Value = serde_json::from_str(&js).unwrap_or(Value::Null);
+        match Case::from_json(&v) {
+            Some(case) => {
+                let sum = settle(property, vec![case], 5);
+                if !sum.violations.is_empty() {
+                    return 1;
+                }
+                println!("INCONCLUSIVE: a guard-page fault during symbolic execution did not reproduce natively");
+                return 2;
+            }
+            None => {
+                println!("INCONCLUSIVE: worker died with a guard fault but its case could not be read: {}", js);
+                return 2;
+            }
+        }
+    }
+    match code {
+        Some(c) => c,
+        None => {
+            println!("INCONCLUSIVE: worker killed by a signal outside the guard arena");
+            2
+        }
+    }
 }
